@@ -346,8 +346,10 @@ func checkC03(res *Result) {
 		res.check(len(cl) >= 1 && len(se) == 1, "C03-R4", fname(fn), p.pos(fn), "handler scrubs and serialises", fmt.Sprintf("clearSensitiveFields calls %d, Serialize calls %d", len(cl), len(se)))
 		if len(se) == 1 {
 			okDom := false
+			ffh := computeFacts(fn)
+			served := unwrap(ffh.resolveAt(se[0], se[0].Common().Args[0]))
 			for _, c := range cl {
-				if dominates(c, se[0]) && unwrap(c.Common().Args[0]) == unwrap(se[0].Common().Args[0]) {
+				if dominates(c, se[0]) && (unwrap(c.Common().Args[0]) == unwrap(se[0].Common().Args[0]) || unwrap(ffh.resolveAt(c, c.Common().Args[0])) == served) {
 					okDom = true
 				}
 			}
